@@ -209,6 +209,16 @@ PROPS = {
 
 NOT_YET = {}
 
+# second tie: the control shapes (Gen/Shapes.lean, regenerated on every run) of the functions the models of a property
+# mirror are pinned by the lemmas of these areas (Lemmas/Shape<Area>.lean)
+SHAPES = {
+    'C01': ['Mvcc'], 'C02': ['Mvcc'], 'C03': ['Mvcc', 'SkipConc'], 'C04': ['Mvcc', 'SkipConc', 'Barrier'],
+    'C05': ['Backup', 'Codec', 'Visitor', 'SkipSeq', 'Mvcc'], 'C06': ['Mvcc'], 'C07': ['Mvcc', 'Barrier', 'Backup', 'SkipSeq'],
+    'C08': ['Mvcc'], 'C09': ['Mvcc'], 'C10': ['Visitor', 'Mvcc'], 'C11': ['Backup', 'Codec'], 'C12': ['Backup', 'Codec'],
+    'C13': ['SkipConc'], 'C14': ['SkipConc', 'SkipSeq'], 'C15': ['SkipConc'], 'C16': ['Barrier'], 'C17': ['Barrier'],
+    'C18': ['SkipSeq'], 'C19': ['Codec'], 'C20': ['Table'],
+}
+
 
 def nontrivial_default(case, outs):
     return len(case) >= 3 and not all(o == 'bad-op' for o in outs)
@@ -222,7 +232,7 @@ def check(prop, tier, seed, no_build=False):
               'coverage': {'evaluations': 0, 'traces_validated_against_impl': 0, 'op_histogram': {}, 'samples': [],
                            '_distinct': set()}}
     cov = result['coverage']
-    modules = cfg['modules']
+    modules = cfg['modules'] + ['NitroVerif.Lemmas.Shape' + a for a in SHAPES.get(prop, [])]
     thms = []
     proof_ok = True
     work = os.path.join(C.WORK, 'p%d' % os.getpid())
@@ -255,7 +265,11 @@ def check(prop, tier, seed, no_build=False):
             if rc != 0:
                 proof_ok = False
                 errs = [l for l in out.splitlines() if 'error' in l][:12]
-                result['proof_errors'] += errs or [out[-800:]]
+                result['proof_errors'] += [C.name_obligation(e) for e in errs] or [out[-800:]]
+                if status != 'changed':
+                    rc2, out2 = C.lake_build(['nvmodel'])
+                    if rc2 != 0:
+                        result['tie_errors'].append('model driver does not build: ' + out2[-400:])
                 if status == 'changed':
                     # keep a reference model (the one the theorems were proved about) for the search
                     open(C.GUARDS, 'w').write(backup)
